@@ -12,6 +12,8 @@ import Dmn.Model.DecSpec
   the specification applied to an arbitrary text (the implementation's);
 * `(c07 parse (s text))` → `(parse R P)`: model of `decQuadFromString` and of the `Display` of
   the result;
+* `(c07 lex (s text))` → `(lex neg N e)` / `(lex none)`: the specification reader `lexValue` —
+  the text denotes `(-1)^neg · N · 10^e`;
 * `(c07 literal (s before) (s after))` → `(literal R exact sig34)`: model of `build_numeric`,
   whether the result denotes exactly the digits written, whether there are ≤ 34 significant
   digits. -/
@@ -73,6 +75,14 @@ def handle (args : List Sexp) : String :=
     | some t =>
       let r := ofString t
       s!"(parse {showR r} {textOrPanic (plainR r)})"
+  | [.atom "lex", t] =>
+    -- the specification reader of the input direction: what the text denotes
+    match Sexp.chars? t with
+    | none => "(error bad-text)"
+    | some t =>
+      match lexValue t with
+      | some (neg, n, e) => s!"(lex {boolStr neg} {n} {e})"
+      | none => "(lex none)"
   | [.atom "literal", b, a] =>
     match Sexp.chars? b, Sexp.chars? a with
     | some b, some a =>
